@@ -3,6 +3,7 @@ package health
 import (
 	"errors"
 	"fmt"
+	"sync"
 	"sync/atomic"
 	"time"
 
@@ -20,6 +21,7 @@ type Prober struct {
 	name           string
 	onCheckEndFunc func(bool, bool, string)
 	hc             *health.Health
+	hcMtx          sync.Mutex // go-health's Start and Stop are not safe for concurrent use
 	stopped        atomic.Bool
 }
 
@@ -56,7 +58,9 @@ func (p *Prober) Start() {
 		if p.stopped.Load() {
 			return
 		}
+		p.hcMtx.Lock()
 		err := p.hc.Start()
+		p.hcMtx.Unlock()
 		if err != nil && !errors.Is(err, health.ErrAlreadyRunning) {
 			log.Error().Err(err).Msgf("%s failed to start monitoring", p.name)
 			return
@@ -67,7 +71,9 @@ func (p *Prober) Start() {
 
 func (p *Prober) Stop() {
 	if p.hc != nil {
+		p.hcMtx.Lock()
 		_ = p.hc.Stop()
+		p.hcMtx.Unlock()
 		p.stopped.Store(true)
 	}
 }
